@@ -569,10 +569,11 @@ pub fn wide_universe() -> Universe {
     };
     let z128 = add(def("ZA128", Zero, &["C", "align(128)"], vec![], Body::Struct(named(&[("x", p(U8)), ("y", p(U32))]))));
     let z256 = add(def("ZA256", Zero, &["C", "align(256)"], vec![], Body::Struct(named(&[("x", p(U16))]))));
+    let z8k = add(def("ZA8192", Zero, &["C", "align(8192)"], vec![], Body::Struct(named(&[("x", p(U32)), ("y", p(U8))]))));
     let pre = add(def("Pre", DeepPlain, &[], vec![tparam("A", &[]), tparam("B", &[])], Body::Struct(named(&[("a", Ty::Param(0)), ("b", Ty::Param(1))]))));
     let tail = add(def("Tail", DeepPlain, &[], vec![tparam("A", &[])], Body::Struct(named(&[("a", Ty::Param(0)), ("t1", p(U8)), ("t2", p(U64)), ("t3", Ty::String)]))));
     let mut s = vec![];
-    for z in [z128, z256] {
+    for z in [z128, z256, z8k] {
         let t = Ty::adt(z, vec![]);
         s.push(t.clone());
         s.push(Ty::vec(t.clone()));
